@@ -7,8 +7,9 @@ map:    the hash abstraction. The harness wraps the hash chip handed to the real
         recorder: every call `hash([a, b]) -> o` is logged as (cells of a and b, cell of o). The
         specification side declares ONE uninterpreted function Hf : Int x Int -> Int and asserts
         `o = Hf(a, b)` per recorded call (congruence is then the only thing known about the hash); in
-        `hash=poseidon` mode the rows of the real PoseidonChip are cut out of the extracted system
-        (`poseidon_cut`), in `hash=uf` mode the hash chip assigns its digest as a free cell."""
+        `hash=poseidon` mode the rows that live in the real PoseidonChip's own columns are cut out of the
+        extracted system by the harness (engines/extract/src/map.rs), in `hash=uf` mode the hash chip assigns
+        its digest as a free cell."""
 from . import core, csmt
 from .cspec import *       # noqa: F401,F403
 from .cspec import A as _A
@@ -173,18 +174,6 @@ def prove_then_assume(e, parts, timeout=60):
             proved.append(name)
             STATS["lemma_proved"] += 1
     return proved
-
-
-def poseidon_cut(system):
-    """drop-set for cengine.decide: every extracted row of a gate the PoseidonChip configured (the names
-    are reported by the harness: gates created between the native gadget's configure and the end of the
-    hash chip's configure)."""
-    names = set(system.d.get("extra", {}).get("hash_gates") or [])
-    drop = set()
-    for g in system.d["gates"]:
-        if g["gate"].rsplit(":", 1)[0] in names:
-            drop.add(("gate", g["gate"], g["row"]))
-    return drop
 
 
 # ----------------------------------------------------------------------------------------- encoder
